@@ -33,8 +33,8 @@ def eval_eq_spec_statement : Prop :=
     specEval fuel bashMaxDepth env e = (r, env') → r.inDomain → evalArith env e = (r, env')
 
 /-- `eval_eq_spec` for environments whose variables hold nothing, an integer literal, a name, or
-    **an arbitrary expression text** (`EnvOK`: the text lexes and parses completely, its constants
-    are valid, and it is not a bare signed/blank-padded name), for expressions with valid constants
+    **an arbitrary expression text** (`EnvOK`: the text lexes and parses completely and its constants
+    are valid; blank-only values are allowed as well), for expressions with valid constants
     (`LitsOK`), whenever the evaluation needs at most 99 levels of nesting through variable values
     (the code's limits are 99 names / 100 texts, bash's 1024; `r.good`): the code returns bash's
     result — value or error, and final environment — bash's own budget gives that same result, the
@@ -54,6 +54,11 @@ example :
     let e : Expr := .binary .add (.binary .add (.binary .add (.word nz)
       (.paren (.binary .addAssgn (.word ny) (.word [49])))) (.word [119])) (.word nx)
     (specEval 200 codeDepth env e).1 = .ok 34 ∧ (evalArith env e).1 = .ok 34 := by decide
+
+/-- Blank-only values are covered too: `x="  "; $((x + 1))` is 1 in the specification and in the code. -/
+example :
+    (specEval 100 codeDepth (envOf [(nx, [32, 9])]) (.binary .add (.word nx) (.word [49]))).1 = .ok 1 ∧
+    (evalArith (envOf [(nx, [32, 9])]) (.binary .add (.word nx) (.word [49]))).1 = .ok 1 := by decide
 
 /-- Repaired (19b4ebf, 5f53769): `x="1+2"; $((x))` is 3 and `y=x; x=5; $((y+=1))` is 6, in the
     specification and in the code. -/
